@@ -4,6 +4,7 @@ use proptest::prelude::*;
 use serde::{Deserialize, Serialize};
 use serde_json::{json, Value};
 
+use crate::vf::codec::{AmbientGuard, IpTweak};
 use crate::vf::dec_app::*;
 use crate::vf::engine::*;
 use crate::vf::gen::*;
@@ -29,6 +30,9 @@ pub struct Case {
     pub dport: u16,
     pub req: SmbReq,
     pub fault: Fault,
+    /// IP / TCP header fields the responder is not documented to look at
+    #[serde(default)]
+    pub tweak: Option<IpTweak>,
 }
 
 pub fn case_strategy() -> impl Strategy<Value = Case> {
@@ -37,7 +41,7 @@ pub fn case_strategy() -> impl Strategy<Value = Case> {
         2 => Just(Fault::ReplyFlag),
         3 => prop_oneof![2 => 0u16..=0x12, 2 => 0x70u16..0x76, 1 => any::<u16>()].prop_map(Fault::OtherCommand),
     ];
-    (scenario_quiet(Fam::Any), port(), port(), smb_req(), fault).prop_map(|(scn, sport, dport, req, fault)| Case { scn, sport, dport, req, fault })
+    (scenario_levels(Fam::Any), port(), port(), smb_req(), fault, prop::option::weighted(0.25, crate::vf::props::c03::ip_tcp_tweak())).prop_map(|(scn, sport, dport, req, fault, tweak)| Case { scn, sport, dport, req, fault, tweak })
 }
 
 fn smb1_common(a: &[u8], hdr: &Smb1Hdr, cmd: u8) -> Result<usize, Failure> {
@@ -73,6 +77,33 @@ fn smb2_common(a: &[u8], hdr: &Smb2Hdr, cmd: u16) -> Result<usize, Failure> {
     Ok(4 + 64)
 }
 
+/// the security blobs the responder sends are GSS-API / SPNEGO tokens, i.e. one DER element:
+/// "the security blob actually present" ends where that element ends
+fn der_total(b: &[u8]) -> Option<usize> {
+    if b.len() < 2 {
+        return None;
+    }
+    match b[1] {
+        l if l < 0x80 => Some(2 + l as usize),
+        0x81 if b.len() >= 3 => Some(3 + b[2] as usize),
+        0x82 if b.len() >= 4 => Some(4 + be16(b, 2) as usize),
+        _ => None,
+    }
+}
+
+fn blob_consistent(blob: &[u8], what: &str) -> Check {
+    if blob.is_empty() {
+        return Ok(());
+    }
+    match der_total(blob) {
+        Some(t) => {
+            vensure!(t == blob.len(), "{} announces {} bytes but the security blob present (one DER element, tag {:#04x}) is {} bytes long", what, blob.len(), blob[0], t);
+            Ok(())
+        }
+        None => vfail!("{}: security blob is not a DER element ({})", what, hex(&blob[..blob.len().min(16)])),
+    }
+}
+
 pub fn check_response(req: &SmbReq, a: &[u8]) -> Check {
     match req {
         SmbReq::Smb1Negotiate { hdr, dialects } => {
@@ -93,7 +124,8 @@ pub fn check_response(req: &SmbReq, a: &[u8]) -> Check {
             let bc = le16(a, p + 1 + 8) as usize;
             vensure!(bc == a.len() - (p + 1 + 8 + 2), "ByteCount {} but {} bytes follow", bc, a.len() - (p + 1 + 8 + 2));
             vensure!(blob <= bc, "SecurityBlobLength {} exceeds ByteCount {}", blob, bc);
-            Ok(())
+            let start = p + 1 + 8 + 2;
+            blob_consistent(&a[start..start + blob], "SecurityBlobLength")
         }
         SmbReq::Smb2Negotiate { hdr, dialects, .. } => {
             let p = smb2_common(a, hdr, 0)?;
@@ -104,7 +136,15 @@ pub fn check_response(req: &SmbReq, a: &[u8]) -> Check {
             let off = le16(a, p + 56) as usize;
             let len = le16(a, p + 58) as usize;
             vensure!(off == 64 + 64, "SecurityBufferOffset {:#x}: the blob starts at {:#x} of the SMB2 message", off, 128);
-            vensure!(4 + off + len == a.len(), "SecurityBufferOffset {} + Length {} = {} but the SMB2 message has {} bytes", off, len, off + len, a.len() - 4);
+            vensure!(4 + off + len <= a.len(), "SecurityBufferOffset {} + Length {} = {} but the SMB2 message has {} bytes", off, len, off + len, a.len() - 4);
+            blob_consistent(&a[4 + off..4 + off + len], "SecurityBufferLength")?;
+            // what follows the blob can only be negotiate contexts (8-byte aligned, announced by
+            // NegotiateContextOffset / Count) — nothing the blob length may swallow
+            let ctx_off = le32(a, p + 60) as usize;
+            let ctx_cnt = le16(a, p + 6) as usize;
+            if 4 + off + len != a.len() {
+                vensure!(ctx_cnt > 0 && ctx_off >= off + len && 4 + ctx_off <= a.len(), "{} bytes follow the security blob but NegotiateContextCount / Offset ({} / {}) do not announce them", a.len() - 4 - off - len, ctx_cnt, ctx_off);
+            }
             Ok(())
         }
         SmbReq::Smb2SessionSetup { hdr, .. } => {
@@ -115,7 +155,7 @@ pub fn check_response(req: &SmbReq, a: &[u8]) -> Check {
             let len = le16(a, p + 6) as usize;
             vensure!(off == 64 + 8, "SecurityBufferOffset {:#x}: the blob starts at {:#x} of the SMB2 message", off, 72);
             vensure!(4 + off + len == a.len(), "SecurityBufferOffset {} + Length {} but the SMB2 message has {} bytes", off, len, a.len() - 4);
-            Ok(())
+            blob_consistent(&a[4 + off..4 + off + len], "SecurityBufferLength")
         }
     }
 }
@@ -206,6 +246,7 @@ fn judge(req: &SmbReq, fault: &Fault, bytes: &[u8], negative: bool, app: &Option
 pub fn check(c: &Case, st: &mut Stats) -> Check {
     Sut::reset();
     st.eval();
+    let _ambient = AmbientGuard::set(&c.tweak);
     let sut = Sut::new(&c.scn.cfg);
     let (bytes, negative) = match faulted(&c.req, &c.fault) {
         Some(x) => x,
@@ -238,7 +279,7 @@ pub fn conv_strategy() -> impl Strategy<Value = Conv> {
     // one SMB version per connection: the flow's leading bytes select the SMB1 or the SMB2
     // responder for the whole connection (C10), so a message of the other version is not this
     // responder's to answer
-    (scenario_quiet(Fam::Any), port(), port(), proptest::collection::vec((smb_req(), fault()), 2..=6)).prop_map(|(scn, sport, dport, mut msgs)| {
+    (scenario_levels(Fam::Any), port(), port(), proptest::collection::vec((smb_req(), fault()), 2..=6)).prop_map(|(scn, sport, dport, mut msgs)| {
         let v1 = msgs[0].0.is_smb1();
         msgs.retain(|(r, _)| r.is_smb1() == v1);
         msgs.truncate(4);
